@@ -3,6 +3,7 @@ import ast
 from typing import Dict, List, Optional, Set, Tuple
 
 from ..model import AnalysisError, Program, FunctionInfo, ClassInfo, walk_function, dotted_name, parent
+from ..model import parent as model_parent
 from ..guards import norm, call_name, const_str, isinstance_atom, known_instance, card_admitted, name_subject, text_subject
 from ..facts import Fn, CORE, assigned_from, enclosing_loops, enclosing_stmt, verdict, reaching_defs
 from ..effects import world
@@ -26,6 +27,12 @@ MODEL_ERRORS = {
     'yatiml.recognizer:Recognizer.__recognize_user_class:raise RuntimeError': 'programming error: _yatiml_recognize has the wrong signature (TypeError converted)',
     'yatiml.constructors:Constructor.__strip_extra_attributes:raise RuntimeError': 'model error: __init__ without self (depends on the class only)',
     'yatiml.helpers:Node.set_attribute:raise TypeError': 'argument-kind error; the only load-path caller passes the yaml.Node returned by __process_node, for which the isinstance(value, yaml.Node) arm is taken',
+}
+
+# hashed node values (I7) on nodes that do not come from the document
+HASH_EXEMPT = {
+    'yatiml.helpers:Node.remove_attributes_with_default_values': 'documented for _yatiml_sweeten: the mapping was built by '
+    'Representer.represent_mapping, whose keys are the attribute names (str scalars)',
 }
 
 _esc_cache: Dict[int, Escapes] = {}
@@ -104,6 +111,11 @@ def r08_2_user_code(ctx, rid='R08.2'):
     for key, pred, contract, what in USER_SITES:
         f = fn(P, key)
         sites = [c for c in f.walk() if isinstance(c, ast.Call) and pred(norm(c.func)) and f.live(c)]
+        if not sites and what == 'user __init__':
+            moved = S.init_sites(P)
+            if moved:
+                f = moved[0][0]
+                sites = [c for _, c, _ in moved]
         if not sites:
             r.fail(f.key('no-%s-site' % what), f.loc(), '%s is never called' % what)
         for c in sites:
@@ -120,11 +132,16 @@ def r08_2_user_code(ctx, rid='R08.2'):
             ok, why = S.handler_converts(f, hs[0])
             r.check(ok, '%s: %s under `except %s` that converts to RecognitionError / REJECT' % (f.fi.qual, norm(c)[:40], norm(hs[0].type) if hs[0].type else ''),
                     f.key('handler:%s' % what), f.loc(hs[0]), 'the handler around the %s call does not convert: %s' % (what, why))
-    # savorize: the hook call is in __savorize; the converting handler is at its only caller
+    # savorize: the hook call is in __savorize; the converting handler is around the hook call itself or at its only caller
     f = fn(P, S.PN)
+    sv = fn(P, 'yatiml.loader:Loader.__savorize')
+    inner = [S.handler_for(sv, c, {'SeasoningError', 'Exception', 'RuntimeError', 'BaseException'}) for c in S.hook_calls(sv, '_yatiml_savorize')]
+    inner_ok = bool(inner) and all(h is not None and S.handler_converts(sv, h)[0] for h in inner)
     for c in [c for c in f.calls('__savorize') if f.live(c)]:
         h = S.handler_for(f, c, {'SeasoningError', 'Exception', 'RuntimeError', 'BaseException'})
-        if h is None:
+        if h is None and inner_ok:
+            r.ok('the _yatiml_savorize call itself sits in a converting handler (inside __savorize)')
+        elif h is None:
             r.fail(f.key('unhandled:savorize'), f.loc(c), 'the savorize call is not inside a handler for SeasoningError')
         else:
             ok, why = S.handler_converts(f, h)
@@ -157,6 +174,65 @@ def r08_3_implicit(ctx, rid='R08.3'):
         for fi in m.functions.values():
             f = None
             for n in walk_function(fi.node):
+                # I7: the text of a node used as a hash key (dict/set construction, keyed lookup): only a ScalarNode's value is a
+                # string - the value of a sequence or mapping used as a key is a list
+                hk = _hashed_node_value(n)
+                if hk is not None:
+                    f = f or fn_of(fi)
+                    if f.live(n):
+                        recv = hk.value
+                        rname = norm(recv)
+                        is_node = False
+                        if isinstance(recv, ast.Name):
+                            ann = fi.param_annotation(recv.id)
+                            if ann is not None and 'Node' in norm(ann):
+                                is_node = True
+                            for x in walk_function(fi.node):
+                                if isinstance(x, (ast.For, ast.comprehension)) and isinstance(x.target, ast.Tuple) and x.target.elts \
+                                        and norm(x.target.elts[0]) == rname and norm(x.iter).endswith('.value'):
+                                    is_node = True
+                        if is_node and fi.key in HASH_EXEMPT:
+                            r.ok('exempt: %s (%s)' % (fi.key, HASH_EXEMPT[fi.key]))
+                        elif is_node:
+                            gs = f.guards(hk) + f.guards(n)
+                            ok = known_instance(gs, rname, {'ScalarNode'})
+                            if not ok:
+                                pos = S.branch_nodes(f, lambda a: any(isinstance_atom(g) and isinstance_atom(g)[0] == rname and p
+                                                                       and isinstance_atom(g)[1] <= {'ScalarNode'} for g, p in a))
+                                ok = bool(pos) and f.cfg.must_pass(f.cfg.entry, f.nid(n), pos)
+                            if not ok:
+                                for comp in [x for x in S._ancestors_list(hk) if isinstance(x, (ast.DictComp, ast.SetComp, ast.ListComp, ast.GeneratorExp))]:
+                                    for g_ in comp.generators:
+                                        for cond in g_.ifs:
+                                            if known_instance(S.conj_atoms(cond, True), rname, {'ScalarNode'}):
+                                                ok = True
+                            if not ok:
+                                for tr in f.cfg.enclosing_handlers(n):
+                                    for h in tr.handlers:
+                                        names = f.cfg._handler_names(h)
+                                        if names is None or set(names) & {'TypeError', 'Exception'}:
+                                            ok = True
+                            r.check(ok, '%s: %s is hashed only for a ScalarNode' % (fi.qual, norm(hk)), '%s:hashed-node-value:%s' % (
+                                fi.key, f.alpha.text(hk)[:60]), fi.loc(n), '%s is used as a hash key (%s) although %s may be a sequence or '
+                                'mapping node (a complex key `? [a, b]`, an explicitly tagged collection): its value is a list and hashing '
+                                'raises TypeError' % (norm(hk), norm(n)[:50], rname))
+                # I1b (contradiction): D[k] under `k in D2` for another table D2 whose keys are not all keys of D
+                if isinstance(n, ast.Subscript) and isinstance(n.ctx, ast.Load) and isinstance(n.value, ast.Name) \
+                        and not isinstance(n.slice, (ast.Constant, ast.Slice)):
+                    f = f or fn_of(fi)
+                    if f.live(n):
+                        kd = _dict_keys(P, f, n.value.id)
+                        for g, p in f.guards(n):
+                            if p and isinstance(g, ast.Compare) and len(g.ops) == 1 and isinstance(g.ops[0], ast.In) \
+                                    and norm(g.left) == norm(n.slice) and isinstance(g.comparators[0], ast.Name) \
+                                    and g.comparators[0].id != n.value.id and kd is not None:
+                                k2 = _dict_keys(P, f, g.comparators[0].id)
+                                if k2 is not None:
+                                    r.check(k2 <= kd, '%s: %s[%s] under `%s in %s` (all its keys are keys of %s)' % (
+                                        fi.qual, n.value.id, norm(n.slice), norm(n.slice), g.comparators[0].id, n.value.id),
+                                        '%s:lookup-guarded-by-other-table:%s[%s]' % (fi.key, n.value.id, norm(n.slice)), fi.loc(n),
+                                        '%s[%s] is guarded by membership in %s, which also has the keys %s: for those the lookup raises '
+                                        'KeyError' % (n.value.id, norm(n.slice), g.comparators[0].id, sorted(k2 - kd)))
                 # I1: keyed lookups in dict-like tables
                 if isinstance(n, ast.Subscript) and isinstance(n.ctx, ast.Load) and not isinstance(n.slice, (ast.Constant, ast.Slice)):
                     base = n.value
@@ -268,6 +344,59 @@ def r08_3_implicit(ctx, rid='R08.3'):
                     r.check(ok, '%s: %s.remove(%s) under a membership guard' % (fi.qual, lst, x), '%s:remove:%s.remove(%s)' % (fi.key, lst, x),
                             fi.loc(n), '%s.remove(%s) can raise ValueError: membership is not established' % (lst, x))
     r.done()
+
+
+def _dict_keys(P: Program, f: Fn, name: str) -> Optional[Set[str]]:
+    """key expressions (as text) of the dict literal that `name` denotes: a single-assignment local or a module-level constant of a
+    yatiml module (followed through `from .util import name`)"""
+    src = None
+    ds = assigned_from(f, name)
+    if len(ds) == 1:
+        src = ds[0]
+    else:
+        m = f.fi.module
+        if name in m.constants:
+            src = m.constants[name]
+        elif name in m.imports:
+            tgt = m.imports[name]
+            mod, _, nm = tgt.rpartition('.')
+            if mod in P.modules and nm in P.modules[mod].constants:
+                src = P.modules[mod].constants[nm]
+    if isinstance(src, ast.Dict) and all(k is not None for k in src.keys):
+        return {norm(k) for k in src.keys}
+    return None
+
+
+def _is_node_value(e: ast.AST) -> bool:
+    return isinstance(e, ast.Attribute) and e.attr == 'value'
+
+
+def _hashed_node_value(n: ast.AST) -> Optional[ast.Attribute]:
+    """the `X.value` expression that construct `n` hashes, if any"""
+    if isinstance(n, ast.DictComp) and _is_node_value(n.key):
+        return n.key
+    if isinstance(n, ast.SetComp) and _is_node_value(n.elt):
+        return n.elt
+    if isinstance(n, ast.Dict):
+        for k in n.keys:
+            if k is not None and _is_node_value(k):
+                return k
+    if isinstance(n, ast.Call):
+        f = n.func
+        if isinstance(f, ast.Name) and f.id in ('set', 'frozenset', 'dict') and n.args:
+            a0 = n.args[0]
+            if isinstance(a0, (ast.GeneratorExp, ast.ListComp)):
+                e = a0.elt
+                if _is_node_value(e):
+                    return e
+                if isinstance(e, ast.Tuple) and e.elts and _is_node_value(e.elts[0]) and f.id == 'dict':
+                    return e.elts[0]
+        if isinstance(f, ast.Attribute) and f.attr in ('get', 'setdefault', 'pop', 'add', 'discard') and n.args and _is_node_value(n.args[0]) \
+                and not (isinstance(f.value, ast.Attribute) and f.value.attr == 'value'):
+            return n.args[0]
+    if isinstance(n, ast.Subscript) and _is_node_value(n.slice) and not isinstance(n.ctx, ast.Del):
+        return n.slice
+    return None
 
 
 def _loop_over_keys(f: Fn, n: ast.AST, table: str, key: str) -> bool:
@@ -676,15 +805,55 @@ def _mark_receivers(f: Fn, use: ast.AST, e: ast.AST, depth: int = 4) -> List[ast
 
 
 def _resolve_node(f: Fn, use: ast.AST, e: ast.AST, depth: int) -> List[ast.AST]:
-    if isinstance(e, ast.Name) and depth > 0 and e.id not in f.fi.params:
+    if isinstance(e, ast.Name) and depth > 0:
         ds = [d for d in reaching_defs(f, use, e.id) if isinstance(d, ast.Assign) and len(d.targets) == 1
               and isinstance(d.targets[0], ast.Name)]
         if ds:
-            out: List[ast.AST] = []
+            out: List[ast.AST] = [e] if e.id in f.fi.params else []      # a re-bound parameter may still hold its initial value
             for d in ds:
                 out += _resolve_node(f, d, d.value, depth - 1)
             return out
     return [e]
+
+
+def r17_9_mark_provenance(ctx, rid='R17.9'):
+    """the node whose position a loader/constructor error cites is the document's node, reached through locals of this activation"""
+    P = ctx.P
+    from .dumpside import LONG_LIVED
+    r = ctx.rule(rid, 'positions cited by the loader and the constructors are read from the node of this activation: not from a field of '
+                      'an object shared by all calls (a nested object of the same class overwrites it), and not from a node that a '
+                      'savorize hook may already have replaced (make_mapping() gives it the synthetic "generated node" mark)', floor=4)
+    n = 0
+    for mn in ('yatiml.loader', 'yatiml.constructors'):
+        for fi in P.module(mn).functions.values():
+            f = None
+            for rs in [x for x in walk_function(fi.node) if isinstance(x, ast.Raise)]:
+                if S.raise_class(rs) != 'RecognitionError' or not isinstance(rs.exc, ast.Call) or not rs.exc.args:
+                    continue
+                f = f or fn_of(fi)
+                if not f.live(rs):
+                    continue
+                for e in _mark_receivers(f, rs, rs.exc.args[0]):
+                    t = norm(e)
+                    n += 1
+                    shared = t.startswith('self.') and fi.cls is not None and fi.cls.name in LONG_LIVED
+                    # only where a hook's own failure is converted: there the position must be that of the node as it was in the
+                    # document (later errors necessarily speak about the savorized node)
+                    in_conv = any(isinstance(a, ast.ExceptHandler) and a.type is not None and 'SeasoningError' in norm(a.type)
+                                  for a in S._ancestors_list(rs))
+                    posthook = in_conv and ('.yaml_node' in t or '__savorize(' in t)
+                    if posthook:
+                        # a binding `v = <the call that raised>` in the protected body never happened when its handler runs
+                        hs = [a for a in S._ancestors_list(rs) if isinstance(a, ast.ExceptHandler)]
+                        tr = model_parent(hs[0]) if hs else None
+                        if isinstance(tr, ast.Try) and any(isinstance(st, ast.Assign) and st.value is e for st in tr.body):
+                            posthook = False
+                    r.check(not shared and not posthook, '%s: cites %s' % (fi.qual, t[:50]), '%s:cited-node-provenance:%s' % (fi.key, t[:50]),
+                            fi.loc(rs), '%s cites the position of %s: %s' % (fi.qual, t[:60], 'a field of the shared %s object, which a nested '
+                            'construction of the same class overwrites before it is read' % fi.cls.name if shared else 'a node that came back '
+                            'from a savorize hook - if the hook replaced it (make_mapping, set_value on a generated node) the position is '
+                            'not the document\'s'))
+    r.done()
 
 
 def _node_sources(f: Fn, use: ast.AST, e: ast.AST, depth: int) -> Set[str]:
